@@ -15,11 +15,22 @@ SeedN == atoi(IOEnv.KV_SEED)
 Full == Tier = "thorough"
 Depth == 3
 
-Names == {"a", "@a", "@@a", "@", "default", "@B", "b", "@ä b", "\"q\"", "@x'y", "a@", "@a@", "A"}
+Names == {"a", "@a", "@@a", "@", "default", "@B", "b", "@{a} b", "\"q\"", "@x'y", "a@", "@a@", "A"}
+(* TLC writes queued states to disk and does not read characters beyond ASCII back faithfully: inside the   *)
+(* states non-ASCII letters are written {a}, {u}; they are decoded when a history is emitted as a case.     *)
+RECURSIVE Dec(_)
+Dec(t) == IF t = "" THEN ""
+          ELSE IF Len(t) >= 3 /\ Take(t, 3) = "{a}" THEN "ä" \o Dec(Drop(t, 3))
+          ELSE IF Len(t) >= 3 /\ Take(t, 3) = "{u}" THEN "ü" \o Dec(Drop(t, 3))
+          ELSE Take(t, 1) \o Dec(Drop(t, 1))
+RECURSIVE Enc(_)
+Enc(t) == IF t = "" THEN "" ELSE (IF Take(t, 1) = "ä" THEN "{a}" ELSE IF Take(t, 1) = "ü" THEN "{u}" ELSE Take(t, 1)) \o Enc(Drop(t, 1))
+EFiles == [i \in 1..Len(Files) |-> Enc(Files[i])]
+DecCmd(c) == [c EXCEPT !.file = Dec(@), !.name = Dec(@)]
 C(op, file, name) == [op |-> op, file |-> file, name |-> name, answer |-> ""]
 Ask(ans) == [C("clearask", "", "") EXCEPT !.answer = ans]
-Muts == {C("set", Files[i], n) : i \in 1..Len(Files), n \in Names}
-        \cup {C("setdefault", Files[i], "") : i \in 1..Len(Files)}
+Muts == {C("set", EFiles[i], n) : i \in 1..Len(Files), n \in Names}
+        \cup {C("setdefault", EFiles[i], "") : i \in 1..Len(Files)}
         \cup {C("unset", "", n) : n \in Names}
         \cup {C("clear", "", "")}
         \cup {Ask(a) : a \in {"y", "y\n", "Y\r\n", "n\n", "yes\n", "\ny\n", ""}}
@@ -30,7 +41,7 @@ Allowed(c, k) == k = 0 \/ (H(c) + SeedN + k) % (IF Full THEN 5 ELSE 16) = 0 \/ c
 
 Observers(d) == <<C("list", "", "")>>
                 \o [i \in 1..2 |-> C("info", "", <<"@a", "default">>[i])]
-                \o <<C("resolve", "", "a"), C("resolve", "", "ä b"), C("resolvedefault", "", ""),
+                \o <<C("resolve", "", "a"), C("resolve", "", "{a} b"), C("resolvedefault", "", ""),
                      C("info", "", "@b"), C("resolve", "", "A"), C("resolvemix", "", "a"), C("resolvemix2", "", "default"),
                      C("resolveblank", "", "a")>>
 
@@ -48,7 +59,7 @@ FileMap == [i \in 1..Len(Files) |-> Files[i]]
 CaseOf(h) == LET st == Steps(h, 1) IN
              [kind |-> "cli", parse |-> FALSE, repeat |-> 1, cfg |-> "",
               files |-> [f \in {Files[i] : i \in 1..Len(Files)} |-> "2020-01-01\n    " \o NatStr(FileMinutes(f) \div 60) \o "h\n"],
-              cmds |-> [i \in 1..Len(st) |-> [args |-> ToArgs(st[i]), now |-> "2020-01-01T12:00:00", ticks |-> <<>>, cmd |-> st[i], stdin |-> st[i].answer]]]
+              cmds |-> [i \in 1..Len(st) |-> [args |-> ToArgs(DecCmd(st[i])), now |-> "2020-01-01T12:00:00", ticks |-> <<>>, cmd |-> DecCmd(st[i]), stdin |-> st[i].answer]]]
 
 Emit == Len(hist') = Depth =>
             Serialize(ToJson(CaseOf(hist')) \o "\n", Out,
@@ -56,8 +67,8 @@ Emit == Len(hist') = Depth =>
                        openOptions |-> <<"WRITE", "CREATE", "APPEND">>]).exitValue = 0
 
 (* map laws *)
-NormIdempotent == \A n \in Names : NormName(NormName(n)) = NormName(n) /\ NormName(n) \in {NameOrder[i] : i \in 1..Len(NameOrder)}
-DbWellFormed == \A n \in DOMAIN db : NormName(n) = n /\ db[n] \in {Files[i] : i \in 1..Len(Files)}
+NormIdempotent == \A n \in Names : NormName(NormName(n)) = NormName(n) /\ Dec(NormName(n)) \in {NameOrder[i] : i \in 1..Len(NameOrder)}
+DbWellFormed == \A n \in DOMAIN db : NormName(n) = n /\ db[n] \in {EFiles[i] : i \in 1..Len(Files)}
 StepLaw == [][LET c == hist'[Len(hist')] IN
               /\ c.op = "clear" => db' = EmptyDb
               /\ c.op = "unset" => (IF Has(db, NormName(c.name)) THEN DOMAIN db' = DOMAIN db \ {NormName(c.name)} ELSE db' = db)
